@@ -164,9 +164,9 @@ def r1_smf(facts):
             for v in st['s']['decls']:
                 if v.get('ref') and v['t'].get('p'):
                     cur = v['id']
-    endp = [p for p in fn.params if p['t'].get('p') and p['t'].get('pt') == 'const unsigned char' or p['n'] == 'end']
+    # by type: the handle is the pointer-to-pointer parameter, the end the plain byte pointer
     pp = [p for p in fn.params if p['t'].get('p') and '*' in p['t'].get('pt', '')]
-    endp = [p for p in fn.params if p['n'] == 'end'] or endp
+    endp = [p for p in fn.params if p['t'].get('p') and '*' not in p['t'].get('pt', '') and 'char' in p['t'].get('pt', '')]
     if cur is None or not endp or not pp:
         raise build.AnalysisBroken('C01.R1: cursor reference / end parameter of parseEvent not found')
     eng = Engine(facts, 'pair')
